@@ -34,7 +34,7 @@ inductive Path | dialer | transport
 inductive Wire
   | apiVersions
   | saslHandshake (v : Nat)
-  | saslAuthenticate (token : Bytes)   -- Kafka-framed SaslAuthenticate request (after a v1 handshake)
+  | saslAuthenticate (v : Nat) (token : Bytes)   -- Kafka-framed SaslAuthenticate request vN (after a v1 handshake)
   | rawToken (token : Bytes)           -- 4-byte length + opaque bytes (after a v0 handshake)
   | other (apiKey : Nat)               -- any other request
   deriving DecidableEq, Repr
@@ -56,8 +56,9 @@ inductive Err
   deriving DecidableEq, Repr
 
 inductive Env
-  /-- ApiVersions response: error code and the advertised (min,max) of SaslHandshake (none: not listed) -/
-  | versions (err : Int) (hs : Option (Int × Int))
+  /-- ApiVersions response: error code and the advertised (min,max) of SaslHandshake (key 17) and of
+      SaslAuthenticate (key 36), independently (none: not listed) -/
+  | versions (err : Int) (hs : Option (Int × Int)) (auth : Option (Int × Int))
   /-- well-formed response to SaslHandshake / SaslAuthenticate / a raw token: error code, payload,
       and whether the broker regards the exchange as successfully finished with this answer -/
   | reply (err : Int) (data : Bytes) (final : Bool)
@@ -70,10 +71,10 @@ inductive Env
 
 inductive Phase
   | awaitVersions
-  | awaitHandshake (v : Nat)
-  | awaitStart (v : Nat)
-  | awaitAuth (v : Nat)
-  | awaitNext (v : Nat)
+  | awaitHandshake (v : Nat) (av : Nat)
+  | awaitStart (v : Nat) (av : Nat)     -- v: handshake version sent; av: version of framed SaslAuthenticate requests
+  | awaitAuth (v : Nat) (av : Nat)
+  | awaitNext (v : Nat) (av : Nat)
   | ready
   | failed
   deriving DecidableEq, Repr
@@ -128,54 +129,64 @@ def selectTransport (hs : Option (Int × Int)) : Nat :=
   | none => 0
   | some (_, mx) => if 0 > mx then 0 else if 1 < mx then 1 else mx.toNat
 
-def authWire (v : Nat) (tok : Bytes) : Wire :=
-  if v = 0 then .rawToken tok else .saslAuthenticate tok
+/-- version of the framed SaslAuthenticate request.  Conn (`saslAuthenticate`): always v0.  Transport:
+`ApiKey.SelectVersion` for SaslAuthenticate (library range 0..1), zero if not listed. -/
+def authVersion (p : Path) (auth : Option (Int × Int)) : Nat :=
+  match p with
+  | .dialer => 0
+  | .transport => selectTransport auth
+
+/-- raw-versus-framed is decided by the HANDSHAKE version that was sent (`conn.go saslAuthenticate`:
+`negotiateVersion(saslHandshake, v0, v1)`; `saslauthenticate.Request.Required`: `versions[SaslHandshake] == 0`),
+never by the range advertised for SaslAuthenticate -/
+def authWire (v av : Nat) (tok : Bytes) : Wire :=
+  if v = 0 then .rawToken tok else .saslAuthenticate av tok
 
 /-- the straight-line code between two reads, per phase and event; `none`: the event cannot happen here -/
 def react (c : Cfg) : Phase → Env → Option Act
   -- ApiVersions answer
-  | .awaitVersions, .versions err hs =>
+  | .awaitVersions, .versions err hs auth =>
     if err ≠ 0 then some (failWith (.kafka err))
     else if !c.sasl then some { next := .ready }
     else match c.path with
       | .dialer =>
         match negotiateConn hs with
         | none => some (failWith .other)
-        | some v => some { next := .awaitHandshake v, write := some (.saslHandshake v) }
+        | some v => some { next := .awaitHandshake v (authVersion c.path auth), write := some (.saslHandshake v) }
       | .transport =>
         -- `connGroup.connect`: host/port for sasl.Metadata are computed after the ApiVersions exchange
         if !c.addrOk then some (failWith .other)
         else
           let v := selectTransport hs
-          some { next := .awaitHandshake v, write := some (.saslHandshake v) }
+          some { next := .awaitHandshake v (authVersion c.path auth), write := some (.saslHandshake v) }
   | .awaitVersions, .eof => some (failWith .other)
   | .awaitVersions, .ioerr => some (failWith .other)
   -- SaslHandshake answer
-  | .awaitHandshake v, .reply err _ final =>
+  | .awaitHandshake v av, .reply err _ final =>
     if final then none
     else if err ≠ 0 then some (failWith (.kafka err))
-    else some { next := .awaitStart v }
-  | .awaitHandshake _, .eof => some (failWith .other)
-  | .awaitHandshake _, .ioerr => some (failWith .other)
+    else some { next := .awaitStart v av }
+  | .awaitHandshake _ _, .eof => some (failWith .other)
+  | .awaitHandshake _ _, .ioerr => some (failWith .other)
   -- Mechanism.Start
-  | .awaitStart _, .mechStart none => some (failWith .other)
-  | .awaitStart v, .mechStart (some tok) => some { next := .awaitAuth v, write := some (authWire v tok) }
+  | .awaitStart _ _, .mechStart none => some (failWith .other)
+  | .awaitStart v av, .mechStart (some tok) => some { next := .awaitAuth v av, write := some (authWire v av tok) }
   -- answer to an authentication token
-  | .awaitAuth v, .reply err _ final =>
+  | .awaitAuth v av, .reply err _ final =>
     if err ≠ 0 then
       -- raw exchange: the answer is opaque bytes, there is no error field; an error is never final
       (if v = 0 ∨ final then none else some (failWith (.kafka err)))
-    else some { next := .awaitNext v, verdict := final }
+    else some { next := .awaitNext v av, verdict := final }
   -- `errors.Is(err, io.EOF)` → SASLAuthenticationFailed.  The legacy Conn reader and the raw exchange
   -- surface io.EOF; `protocol.ReadResponse` turns it into io.ErrUnexpectedEOF (`dontExpectEOF`), so on the
   -- framed Transport path the mapping in `authenticateSASL` is not reached and the error stays opaque.
-  | .awaitAuth v, .eof => if c.path = .dialer ∨ v = 0 then some (failWith (.kafka 58)) else some (failWith .other)
-  | .awaitAuth _, .ioerr => some (failWith .other)
+  | .awaitAuth v _, .eof => if c.path = .dialer ∨ v = 0 then some (failWith (.kafka 58)) else some (failWith .other)
+  | .awaitAuth _ _, .ioerr => some (failWith .other)
   -- StateMachine.Next
-  | .awaitNext _, .mechNext none => some (failWith .other)
-  | .awaitNext v, .mechNext (some (completed, tok)) =>
+  | .awaitNext _ _, .mechNext none => some (failWith .other)
+  | .awaitNext v av, .mechNext (some (completed, tok)) =>
     if completed then some { next := .ready }
-    else some { next := .awaitAuth v, write := some (authWire v tok) }
+    else some { next := .awaitAuth v av, write := some (authWire v av tok) }
   -- handed out
   | .ready, .use k => some { next := .ready, write := some (.other k) }
   | _, _ => none
